@@ -6,6 +6,7 @@ require (
 	github.com/getkin/kin-openapi v0.38.0
 	github.com/ghodss/yaml v1.0.0
 	github.com/vkd/goag v0.0.0
+	verif/rt v0.0.0
 )
 
 require (
@@ -22,3 +23,5 @@ require (
 )
 
 replace github.com/vkd/goag => /repo
+
+replace verif/rt => ./rt
